@@ -156,3 +156,124 @@ func (x *c03) interruptedCases() {
 	x.interruptedPacket("tcp")
 	x.interruptedPacket("ws")
 }
+
+// ---------------------------------------------------------------- the limit in force when the packet arrives
+
+// gatedReader hands out what is fed to it, blocking in between; `parked` is signalled whenever a Read has to wait.
+type gatedReader struct {
+	feed   chan []byte
+	parked chan struct{}
+	rest   []byte
+	handed int
+}
+
+func (g *gatedReader) Read(p []byte) (int, error) {
+	if len(g.rest) == 0 {
+		select {
+		case g.parked <- struct{}{}:
+		default:
+		}
+		b, ok := <-g.feed
+		if !ok {
+			return 0, errSource
+		}
+		g.rest = b
+	}
+	n := copy(p, g.rest)
+	g.rest = g.rest[n:]
+	g.handed += n
+	return n, nil
+}
+
+// limitWhileParked: a Read / Receive is already waiting for data when SetReadLimit is called from
+// another goroutine; the packet that arrives afterwards is judged by the NEW limit: refused (on its
+// header alone) if it is longer, delivered if it is not.
+func (x *c03) limitWhileParked(carrier string, lower bool) {
+	x.bump()
+	n := x.n
+	c := x.c
+	r := c.Rng
+	c.Emit("case %d limitparked carrier=%s lower=%s", n, carrier, hx.B01(lower))
+	lo, hi := int64(40+r.Intn(20)), int64(200+r.Intn(100))
+	size := int(lo) + 20 + r.Intn(60) // between the two limits
+	pkt := publishOfLen(r, size)
+	first, second := hi, lo
+	if !lower {
+		first, second = lo, hi
+	}
+	var got packet.Generic
+	var rerr error
+	handed := -1
+	done := make(chan struct{})
+	switch carrier {
+	case "decoder":
+		g := &gatedReader{feed: make(chan []byte, 256), parked: make(chan struct{}, 1)}
+		d := packet.NewDecoder(g)
+		d.SetReadLimit(first)
+		go func() { defer recoverNote(); defer close(done); got, rerr = d.Read() }()
+		select {
+		case <-g.parked:
+		case <-time.After(hangLimit):
+			c.Emit("direct c19_nohang %d FAIL Decoder.Read never asked the reader for data", n)
+			return
+		}
+		d.SetReadLimit(second)
+		for _, b := range encode(pkt) { // byte at a time: "refused before it is buffered" is visible
+			g.feed <- []byte{b}
+		}
+		close(g.feed)
+		select {
+		case <-done:
+		case <-time.After(hangLimit):
+			c.Emit("direct c19_nohang %d FAIL Decoder.Read did not return", n)
+			return
+		}
+		handed = g.handed
+	default: // a real BaseConn: NetConn resp. WebSocketConn over net.Pipe
+		conn, peer, _, _, cleanup, err := pipePair(carrier)
+		if cleanup != nil {
+			defer cleanup()
+		}
+		if err != nil {
+			c.Emit("direct c03_carrier_available %d FAIL %s pair over net.Pipe: %v", n, carrier, err)
+			return
+		}
+		conn.SetReadLimit(first)
+		go func() { defer recoverNote(); defer close(done); got, rerr = conn.Receive() }()
+		time.Sleep(10 * time.Millisecond) // net.Pipe: the Receive is parked in the carrier read by now
+		conn.SetReadLimit(second)
+		go func() { defer recoverNote(); _ = peer.Send(pkt, false) }()
+		select {
+		case <-done:
+		case <-time.After(hangLimit):
+			c.Emit("direct c19_nohang %d FAIL Receive did not return", n)
+			return
+		}
+	}
+	verdict := ""
+	if lower {
+		switch {
+		case rerr == nil:
+			verdict = fmt.Sprintf("a packet of %d bytes was delivered although SetReadLimit(%d) had returned before its first byte arrived (limit at the time Receive was called: %d)", size, second, first)
+		case rerr != packet.ErrReadLimitExceeded:
+			verdict = fmt.Sprintf("expected the read limit error, got %v", rerr)
+		case handed > 5:
+			c.Emit("direct c03_limit_first %d FAIL %d bytes of the refused packet were read", n, handed)
+		}
+	} else if rerr != nil || got == nil || hx.PktText(got) != hx.PktText(pkt) {
+		verdict = fmt.Sprintf("a packet of %d bytes was refused (%v) although SetReadLimit(%d) had returned before its first byte arrived (limit at the time Receive was called: %d)", size, rerr, second, first)
+	}
+	if verdict != "" {
+		c.Emit("direct c03_limit_refuses %d FAIL %s, Receive parked while the limit changed: %s", n, carrier, verdict)
+	} else {
+		c.Emit("direct c03_limit_refuses %d ok", n)
+	}
+	c.Stat("limit_parked_checks", 1)
+}
+
+func (x *c03) limitParkedCases() {
+	for _, carrier := range []string{"decoder", "decoder", "tcp", "ws"} {
+		x.limitWhileParked(carrier, true)
+		x.limitWhileParked(carrier, false)
+	}
+}
